@@ -22,6 +22,7 @@ from engine.common import need, AnalysisBroken
 
 STEP_FN = '_advance_parsing'
 CMP_FN = '_cmp_name'
+INTFORM_FN = '_parse_integer'
 
 
 def cmp_stub(st, args):
@@ -183,9 +184,19 @@ class StepHooks(LibHooks):
 
     def stub_call(self, st, name, args, ins):
         """optional oracle for the name comparison: three outcomes (less / equal / greater), recorded on the path"""
-        if name != CMP_FN or not (self.K or {}).get('stubcmp'):
+        if not (self.K or {}).get('stubcmp'):
             return None
-        return cmp_stub(st, args)
+        if name == CMP_FN:
+            return cmp_stub(st, args)
+        if name == INTFORM_FN and st.top.fn.name == STEP_FN and len(args) == 3 and isinstance(args[2], Int) and st.store.const_of(args[2].a) == 1:
+            # the shortest-form test of an integer value as an oracle: passes / fails
+            out = []
+            for okv in (1, 0):
+                s = st.copy()
+                s.tags['cmps'] = s.tags.get('cmps', ()) + ((('intform',), okv),)
+                out.append((s, Int(1, Aff(okv))))
+            return out
+        return None
 
     # own record of the state-array cells written during the iteration (the J bookkeeping of LibHooks resets its own)
     def on_store(self, st, r, off, size, val, ins):
@@ -404,6 +415,10 @@ def outcome(C, hooks, st, kind, ret, phi_sf):
         for (o, s, n) in fields:
             if o <= fo < o + s:
                 fname = n if fo == o and sz == s else '%s+%d/%d' % (n, fo - o, sz)
+                if n == 'current_name' and sz == lay.ptr:
+                    for bn, (bo, bsz) in lay.bbuf.items():
+                        if bo == fo - o and bsz == sz:
+                            fname = 'current_name.' + bn
         hit = cells.get((okey, sz))
         eff[(lvl, fname)] = _desc(st, hit[2], names) if hit is not None else ('?', 'gone')
     rec['eff'] = sorted(eff.items(), key=repr)
